@@ -123,20 +123,31 @@ static void vt_ev(int code, int who, char *p, int arg)
 
 static struct sender_ctx sc[NS]; static struct receiver_ctx rc;
 
-/* the schedule loop lives in its own function so that its cbmc loop name (run_schedule.0) does not depend on the discipline */
+static bool all_agents_done(void)
+{
+	bool d = rc.done;
+	for (int a = 0; a < NS; a++) d = d && sc[a].done;
+	return d;
+}
+#if DISC == 1
+/* run-to-completion nesting: an active handler excludes every agent of lower priority */
+static void assume_may_preempt(int who)
+{
+	for (int a = 0; a < NA; a++) if (active[a] && a != who) __CPROVER_assume(in.prio[who] > in.prio[a]);
+}
+#endif
+
+/* the schedule loop is the only loop of its function, so its cbmc name is run_schedule.0 whatever the discipline */
 static void run_schedule(void)
 {
 	bool idle = false;
 	for (unsigned k = 0; k < KSTEPS; k++) {
 		uint8_t who = in.sched[k];
 		__CPROVER_assume(who <= NA);
-		bool all_done = rc.done;
-		for (int a = 0; a < NS; a++) all_done = all_done && sc[a].done;
 		if (idle) __CPROVER_assume(who == NA);
-		if (who == NA) { __CPROVER_assume(all_done); idle = true; continue; }
+		if (who == NA) { __CPROVER_assume(all_agents_done()); idle = true; continue; }
 #if DISC == 1
-		/* run-to-completion nesting: an active handler excludes every agent of lower priority */
-		for (int a = 0; a < NA; a++) if (active[a] && a != who) __CPROVER_assume(in.prio[who] > in.prio[a]);
+		assume_may_preempt(who);
 #endif
 		cur = who;
 		if (who == RECV) { __CPROVER_assume(!rc.done); receiver_step(&rc); }
@@ -147,11 +158,7 @@ static void run_schedule(void)
 #endif
 		sample();
 	}
-	{
-		bool all_done = rc.done;
-		for (int a = 0; a < NS; a++) all_done = all_done && sc[a].done;
-		__CPROVER_assume(all_done);
-	}
+	__CPROVER_assume(all_agents_done());
 }
 
 void h_mq(void)
